@@ -16,7 +16,7 @@ pub mod time;
 pub use sched::{
     abort_run, thread_status, advance_clock, block_on as block_on_key, blocked_count, last_block_clock_ns, choices, clock_ns, current_tid,
     find_thread, fresh_key, global_steps, run_active, in_sim, live_threads, next_seq, pin_to_cpu, run, run_clock_ns,
-    sched_point, set_foreign_block_patience_ms, site, site_name, sleep_ns, steps, stop_faults, thread_finished, unblock,
+    sched_point, foreign_block_monitor_available, set_foreign_block_patience_ms, site, site_name, sleep_ns, steps, stop_faults, thread_finished, unblock,
     work_rng, Decision, Failure, Outcome, SchedConfig, Stall, Strategy, Tid, TraceEv, Wake,
 };
 
